@@ -24,7 +24,7 @@ import (
 	"verifharness/hlib"
 )
 
-var primeShapes = []string{"round-robin", "one-region-run", "forks", "expansion", "missing-rollup", "rand"}
+var primeShapes = []string{"round-robin", "one-region-run", "forks", "expansion", "missing-rollup", "recover-valid", "recover-bad", "recover-mixed", "recover-noclient", "recover-two-nodes", "rand"}
 
 func genPrime(d Desc) *rHist {
 	r := hlib.NewRng(d.Sub).Fork()
@@ -117,10 +117,20 @@ func genPrime(d Desc) *rHist {
 	if d.Shape == "missing-rollup" {
 		h.zones[r.Intn(len(h.zones))].missing = true
 	}
+	if isRecover(d.Shape) {
+		// the extras are what a region keeps inside: ordinary ETXs between its own zones
+		markRecover(h, d, r, func(owner *rBlock) *rEtx {
+			return mkEtx(owner.loc[0]<<4|byte(r.Intn(3)), types.DefaultType, owner.loc[0]<<4|byte(r.Intn(3)))
+		})
+	}
 	return h
 }
 
 func runPrime(d Desc, cw *hlib.CaseWriter) {
+	if d.Shape == "recover-two-nodes" {
+		runTwoNodes(d, cw)
+		return
+	}
 	fail := func(sig, what string) { rep.Fail(sig, what, d) }
 	defer func() {
 		if p := recover(); p != nil {
@@ -135,7 +145,11 @@ func runPrime(d Desc, cw *hlib.CaseWriter) {
 			slices = append(slices, common.Location{byte(reg), byte(z)})
 		}
 	}
-	node, err := core.VerifC04NewRegion(rawdb.NewMemoryDatabase(logger), common.Location{}, slices, 4, logger)
+	newNode := core.VerifC04NewRegion
+	if isRecover(d.Shape) {
+		newNode = core.VerifC04NewDom // the recovery path wired as in NewSlice
+	}
+	node, err := newNode(rawdb.NewMemoryDatabase(logger), common.Location{}, slices, 4, logger)
 	if err != nil {
 		fail("route-prime:setup", "cannot build the prime node: "+err.Error())
 		return
@@ -160,7 +174,7 @@ func runPrime(d Desc, cw *hlib.CaseWriter) {
 	}
 	register := func(z *rZone, wo *types.WorkObject) bool {
 		pr := types.PendingEtxsRollup{Header: wo.ConvertToPEtxView(), EtxsRollup: txsOf(z)}
-		z.hash = pr.Header.Hash()
+		z.hash, z.hdr = pr.Header.Hash(), wo
 		if z.missing {
 			return true
 		}
@@ -235,6 +249,12 @@ func runPrime(d Desc, cw *hlib.CaseWriter) {
 			s = append(s, fmt.Sprint(id))
 		}
 		return "[" + strings.Join(s, ";") + "]"
+	}
+	var rc *recCtx
+	var recAns map[*rBlock][]types.Transactions
+	if isRecover(d.Shape) {
+		rc = &recCtx{level: "prime", ctxN: common.PRIME_CTX, node: node, h: h, d: d, idOfHash: idOfHash, fail: fail, cw: cw}
+		recAns = recoverPhase(rc)
 	}
 	r := hlib.NewRng(d.Sub ^ 0x9e37).Fork()
 	var rollQ, ncQ []string
@@ -323,7 +343,7 @@ func runPrime(d Desc, cw *hlib.CaseWriter) {
 		for a := b; a != nil; a = a.parent {
 			path = append([]*rBlock{a}, path...)
 		}
-		ok := true
+		ok, structOK := true, true
 		for _, a := range path {
 			for _, z := range a.manifest {
 				if z.missing {
@@ -333,16 +353,16 @@ func runPrime(d Desc, cw *hlib.CaseWriter) {
 			if a != b {
 				regs, zs := common.GetHierarchySizeForExpansionNumber(a.exp)
 				if b.loc.Region() > int(regs) || b.loc.Zone() > int(zs) {
-					ok = false // the slice of b is not active under that ancestor: the search ends there by design
+					ok, structOK = false, false // the slice of b is not active under that ancestor: the search ends there by design
 				}
 			}
 		}
 		got := handed[b]
-		if !ok {
+		if !ok && (!structOK || len(recAns[b]) == 0) {
 			rep.Count("prime:monitor:not-applicable")
 			continue
 		}
-		if got.class != 0 {
+		if ok && got.class != 0 {
 			fail("route-prime:error-on-complete-history", fmt.Sprintf("CollectNewlyConfirmedEtxs fails (class %d) on a complete prime history", got.class))
 			continue
 		}
@@ -363,6 +383,13 @@ func runPrime(d Desc, cw *hlib.CaseWriter) {
 					delivered[e.id] = true
 				}
 			}
+		}
+		if len(recAns[b]) > 0 {
+			compareRecovered(rc, b, due, recAns[b], pathString(path))
+		}
+		if !ok {
+			rep.Count("prime:monitor:not-applicable")
+			continue
 		}
 		nDue += len(due)
 		want, gotc := map[int]int{}, map[int]int{}
